@@ -661,7 +661,7 @@ namespace
                 return value(std::make_shared<d_array>());
             }
 
-            return value(std::vector<value>(vec.begin() + start, start + length > static_cast<int>(vec.size()) ? vec.end() : vec.begin() + start + length));
+            return value(std::vector<value>(vec.begin() + start, static_cast<size_t>(start) + static_cast<size_t>(length) > vec.size() ? vec.end() : vec.begin() + start + length));
         }
         else
         {
